@@ -4,8 +4,8 @@ import vlib, gen, impl
 from props.c01 import VERSIONS, excluded
 from props.c08 import struct_info
 
-MODULES = ['Hl7.Props.C04']
-THEOREMS = ['Hl7.Val.C04_missing_required', 'Hl7.Val.C04_limit_exceeded', 'Hl7.Val.C04_foreign_child', 'Hl7.Val.C04_conforming_level',
+MODULES = ['Hl7.Props.C04', 'Hl7.Props.C04Tree']
+THEOREMS = ['Hl7.Val.C04_tree', 'Hl7.Val.C04_message', 'Hl7.Val.conf_valid', 'Hl7.Val.valid_conf', 'Hl7.Val.C04_missing_required', 'Hl7.Val.C04_limit_exceeded', 'Hl7.Val.C04_foreign_child', 'Hl7.Val.C04_conforming_level',
             'Hl7.Val.C04_report', 'Hl7.Val.checkReps_ok']
 
 
@@ -282,7 +282,7 @@ def run(tier, seed):
         names = sorted(n for n in lib.SEGMENTS if n not in ex.get(v, []) and n != 'MSH')
         openended = [n for n in names if gen.is_seq(lib.SEGMENTS[n]) and len(lib.SEGMENTS[n]) > 1 and gen.is_seq(lib.SEGMENTS[n][1]) and lib.SEGMENTS[n][1]
                      and gen.well_formed_ref(lib.SEGMENTS[n][1][-1][1]) and len(lib.SEGMENTS[n][1][-1][1]) == 6 and lib.SEGMENTS[n][1][-1][1][2] == 'varies']
-        pick = openended + chk.rng.sample(names, 6 if tier == 'quick' else 40)
+        pick = openended + chk.rng.sample(names, min(len(names), 6 if tier == 'quick' else 40))
         sjobs += [(v, n) for n in sorted(set(pick))]
     nopen = 0
     for (v, S), (o, oe) in zip(sjobs, vlib.pmap(seg_unknown, sjobs)):
